@@ -24,7 +24,10 @@
 //     fails (tls2raw / https2http plugin whose certificate files do not exist yet): the registration must be
 //     withdrawn at the server (real frps table and port; exact N C stream at the scripted server), the start
 //     is retried after the back-off, and once the files exist the proxy runs on both sides with TLS traffic.
-//  7. legal-transition automaton over the client.wrapper.phase hook (phase.go), active in all cases.
+//  7. churn (churn.go): rounds of ~40 one-round names loaded and, microseconds later, partly removed / changed
+//     while they register, under processor oversubscription; per-name streams at the scripted server and
+//     the name table of the real frps decide "a stopped proxy sends no further registration".
+//  8. legal-transition automaton over the client.wrapper.phase hook (phase.go), active in all cases.
 package main
 
 import (
@@ -46,7 +49,7 @@ const token = "c19-token"
 const (
 	tCheck    = 100 * time.Millisecond
 	tWaitResp = 3000 * time.Millisecond
-	tStartErr = 2500 * time.Millisecond
+	tStartErr = 5000 * time.Millisecond
 )
 
 var run *h.Run
@@ -60,16 +63,17 @@ const (
 	baseScripted  = 3000000
 	baseVisitors  = 4000000
 	baseLocalFail = 5000000
+	baseChurn     = 6000000
 )
 
 func main() {
 	run = h.NewRun(prop, "exploration")
-	run.Rule = "health: PRNG-generated probe outcome sequences over {2xx, non-2xx, timeout, refusal} x maxFailed 0-4 x interval/timeout 1-2 s (http, probe-exact) and closed-listener window scripts (tcp); distinct = (type, settings, outcome sequence). reload: PRNG-generated histories of 3-6 configuration sets over 5 proxy and 2 visitor names (add/remove/change/reorder/duplicate/no-op, api or http reload, burst or settled); distinct = (operation list, application modes). gating: segment scripts per health-checked proxy; distinct = (settings, observed outcome string). visitors: 3 visitors whose bindPort is held by the harness, then removed / moved / kept by a reload after 0-2 unchanged reloads (or ports freed first as control); distinct = (variant, unchanged reloads, order). localfail: {tls2raw, https2http} x {real frps, scripted server} x 1-2 failed cycles before the certificate files appear; distinct = these. scripted: 7 templates (start error xk, missing reply + late reply, removed / changed while the reply is outstanding, health-gated work connections with and without a held reply, unchanged reloads, reload at 0-2 ms after a re-login is accepted); distinct = (template, parameters)"
+	run.Rule = "health: PRNG-generated probe outcome sequences over {2xx, non-2xx, timeout, refusal} x maxFailed 0-4 x interval/timeout 1-2 s (http, probe-exact) and closed-listener window scripts (tcp); distinct = (type, settings, outcome sequence). reload: PRNG-generated histories of 3-6 configuration sets over 5 proxy and 2 visitor names (add/remove/change/reorder/duplicate/no-op, api or http reload, burst or settled); distinct = (operation list, application modes). gating: segment scripts per health-checked proxy; distinct = (settings, observed outcome string). visitors: 3 visitors whose bindPort is held by the harness, then removed / moved / kept by a reload after 0-2 unchanged reloads (or ports freed first as control); distinct = (variant, unchanged reloads, order). churn: rounds of 30-54 one-round names, 40% removed / 30% changed after 0-200 us; distinct = (server kind, entries, rounds/50). localfail: {tls2raw, https2http} x {real frps, scripted server} x 1-2 failed cycles before the certificate files appear; distinct = these. scripted: 7 templates (start error xk, missing reply + late reply, removed / changed while the reply is outstanding, health-gated work connections with and without a held reply, unchanged reloads, reload at 0-2 ms after a re-login is accepted); distinct = (template, parameters)"
 	run.Assumptions = []string{
 		"http probes are observed at a recording RoundTripper wrapped around http.DefaultTransport; it delegates to the real transport and only opens/closes the harness's own backend listener between two probes",
 		"a refused tcp probe is invisible to the backend: tcp health scripts are judged with lower bounds on elapsed time (at most floor(W/interval)+1 probes fit into a closed window of measured length W)",
 		"'eventually' clauses (converged, withdrawn, retried) are bounded-progress watchdogs of at least 3x the configured timer + 10 s",
-		"wrapper timers are shortened with clientproxy.VerifSetTimings(100ms, 3s, 2.5s); health intervals and timeouts are whole seconds as in the configuration schema",
+		"wrapper timers are shortened with clientproxy.VerifSetTimings(100ms, 3s, 5s); health intervals and timeouts are whole seconds as in the configuration schema",
 		"a case during which the whole process was not scheduled for more than 3 s at a stretch (6 s in total; measured by a ticker goroutine) is inconclusive: watchdog verdicts assume the process was running during the grace period",
 		"legal repetitions of NewProxy (reply later than the reply timeout, retry after a start error) are taken from the phase log and discounted when registrations are counted",
 		"the stub server plugin sees every NewProxy message frps receives and every CloseProxy that closed an existing proxy (frps notifies closes asynchronously, so only counts and lower time bounds are used)",
@@ -111,10 +115,16 @@ func main() {
 	phase("health", func() { run.ParallelRange(baseHealth, nHealth, run.N(300, 600), healthCase) })
 	phase("reload", func() { run.ParallelRange(baseReload, nReload, run.N(14, 16), reloadCase) })
 	phase("gating", func() { run.ParallelRange(baseGating, nGating, 20, gatingCase) })
-	phase("scripted", func() { run.ParallelRange(baseScripted, nScripted, run.N(16, 16), scriptedCase) })
+	phase("scripted", func() { run.ParallelRange(baseScripted, nScripted, 32, scriptedCase) })
 	phase("visitors", func() { run.ParallelRange(baseVisitors, run.N(6, 48), 8, unstartableVisitorCase) })
 	phase("localfail", func() { run.ParallelRange(baseLocalFail, run.N(6, 48), 8, localFailCase) })
 	wg.Wait()
+	// the churn phase runs alone: it oversubscribes the processors on purpose
+	if only == "" || only == "churn" {
+		t0 := time.Now()
+		withOversubscription(func() { run.ParallelRange(baseChurn, run.N(2, 6), 1, churnCase) })
+		walls["churn"] = time.Since(t0).Seconds()
+	}
 	run.Set("phase_wall_s", walls)
 
 	finishPhaseMonitor()
